@@ -41,7 +41,8 @@ FromLog(st, cfg, ob) ==
      rt |-> ob.rt, cfg |-> cfg, mode |-> "trace", script |-> <<>>, err |-> ""]
 
 Rt0(cfg) == [k \in 1..cfg.K |-> [n \in 1..cfg.N |-> 0]]
-Obs0(cfg) == [rt |-> Rt0(cfg), gb |-> <<>>, seen |-> <<>>]
+Obs0(cfg) == [rt |-> Rt0(cfg), gb |-> <<>>, seen |-> <<>>, att |-> <<>>,
+              busy |-> [n \in 1..cfg.N |-> 0], tot |-> [n \in 1..cfg.N |-> 0]]
 \* observer at the initial state of a trace: the initial tracker state is first seen at date 0
 ObsInit(tr) == [Obs0(tr.cfg) EXCEPT !.seen = << <<<<tr.init.trk.a, tr.init.trk.b, tr.init.trk.m>>, 0>> >>]
 
@@ -80,7 +81,8 @@ AddFails(old, new, j) ==
 Verdict ==
     [tid |-> Tr.tid, n |-> l, outcome |-> Tr.outcome,
      fails |-> AddFails(fails, F_C14_final(Tr.cfg, LoggedState(l), Tr.outcome)
-                               \cup F_C18_final(Tr.cfg, LoggedState(l), Tr.outcome, obs.seen, Tr.final.ttd), l),
+                               \cup F_C18_final(Tr.cfg, LoggedState(l), Tr.outcome, obs.seen, Tr.final.ttd)
+                               \cup F_C04_final(Tr.cfg, LoggedState(l), Tr.outcome, obs, Tr.final.util), l),
      wits |-> wits, drift |-> drift, taint |-> taint]
 
 \* initial state of a trace: invariants judged on it, and compared with the spec's Init
@@ -105,7 +107,7 @@ StepEvent ==
            enabled == a \in ArgMin(Sx) /\ EvLabel(Sx, a).kind = e.ev.kind
            succ == IF enabled THEN ExecEvent(Sx, a) ELSE {}
            match == {T \in succ : DiffOf(T, e) = {}}
-           obs2 == ObsAfter(cfg, e, obs)
+           obs2 == ObsAfter(cfg, pre, e, obs)
            i0 == IF l = 0 THEN InitCheck ELSE [f |-> {}, d |-> {}]
            newfails == StepFails(cfg, pre, e, obs) \cup InvFails(cfg, e, [gb |-> obs2.gb, dg |-> Range(e.dg)])
            dr == IF ~enabled THEN {<<l + 1, "not-enabled", {e.ev.kind}>>}
